@@ -132,7 +132,7 @@ func pureScenario(r *rand.Rand, which int) Scenario {
 			fI(`std.strlen("`+w+`")`, len(w)),
 			fI(`std.atoi("`+strconv.Itoa(n)+`")`, n),
 			{Expr: strconv.Itoa(n), Typ: "INTEGER", Val: strconv.Itoa(n), Alt: strconv.Itoa(n + 1), Lit: true},
-			fS(`if(req.http.Unset-Hdr, "no", "`+w+`")`, w),
+			{Expr: `if(req.http.Unset-Hdr, "no", "` + w + `")`, Typ: "STRING", Val: w, Alt: w + "X", Lit: true},
 			fS(`table.lookup(t1, "k2", "none")`, "v2"),
 			fS(`table.lookup(t1, "nokey", "none")`, "none"),
 			fB(`table.contains(t1, "k2")`, true),
@@ -368,6 +368,10 @@ func fxPairs() []fxPair {
 	p("testing.mock",
 		Scenario{ID: "fx:testing.mock(functional)", Prelude: []string{`testing.mock("fn_label", "mock_fn_label");`, `testing.call_subroutine("c_calls");`}, Needs: []string{"mock_fn_label"}, Facts: []Fact{fS("req.http.Helper", "called"), fS("req.http.Label", "MOCK")}, SF: callsSF(0)},
 		probeCalls)
+	p("testing.mock",
+		Scenario{ID: "fx:testing.mock(functional, with parameter)", Prelude: []string{`testing.mock("f_ifexpr", "mock_f_ifexpr");`, "declare local var.rs STRING;", `set var.rs = testing.call_subroutine("f_ifexpr", "a");`}, Needs: []string{"mock_f_ifexpr"},
+			Facts: []Fact{fS("var.rs", "MOCKED-a")}, SF: &SF{NotCalled: []string{"helper", "never_called"}}},
+		Scenario{ID: "probe:testing.mock(functional, with parameter)", Prelude: []string{"declare local var.rs STRING;", `set var.rs = testing.call_subroutine("f_ifexpr", "a");`}, Facts: []Fact{fS("var.rs", "A")}, SF: &SF{NotCalled: []string{"helper", "never_called"}}})
 	p("testing.restore_mock",
 		Scenario{Prelude: []string{`testing.mock("helper", "mock_helper");`, `testing.restore_mock("helper");`, `testing.call_subroutine("c_calls");`}, Needs: []string{"mock_helper"}, Facts: []Fact{fS("req.http.Helper", "called")}, SF: callsSF(0)},
 		probeCalls)
